@@ -21,7 +21,7 @@ out = {
     "confirmed": "in a scratch worktree: suite passes with the patch (74 result lines + the network doctest failing as on baseline), demo passes without and fails with the patch (confirm.txt)",
     "ran": f"tools/try_mutation.sh seeded/{p}/{dst.split('/')[-2]}/patch.diff {p}",
     "caught_by": caught,
-    "origin": "independent sub-agent given only the property text and a scratch worktree (batch 4)",
+    "origin": "independent sub-agent given only the property text and a scratch worktree (batch " + __import__("os").environ.get("BATCH", "4") + ")",
 }
 json.dump(out, open(dst, "w"), indent=1, ensure_ascii=False)
 PY
